@@ -50,3 +50,38 @@ pub fn win(base: &[u8], part: &[u8]) -> String {
     }
     format!("({},{})", p0 - b0, part.len())
 }
+
+/// C02: the Display and Debug rendering of every error value, and of every error in its `source()` chain,
+/// has to return normally (a panic in here surfaces as the operation's result `panic`)
+pub fn touch<E: std::error::Error>(e: &E) {
+    let _ = format!("{}", e);
+    let _ = format!("{:?}", e);
+    let mut cur: Option<&dyn std::error::Error> = e.source();
+    let mut depth = 0;
+    while let Some(c) = cur {
+        let _ = format!("{} {:?}", c, c);
+        depth += 1;
+        if depth > 16 {
+            panic!("runaway source chain");
+        }
+        cur = c.source();
+    }
+}
+
+fn hash_of<T: std::hash::Hash>(v: &T) -> u64 {
+    use std::hash::Hasher;
+    let mut h = std::collections::hash_map::DefaultHasher::new();
+    v.hash(&mut h);
+    h.finish()
+}
+
+/// the hand-written `PartialEq` / `Hash` of a header type: a value equals its copy (and hashes alike),
+/// and does not equal the given value that differs from it in a byte it carries
+pub fn eq_laws_bad<T: PartialEq + Clone + std::hash::Hash>(a: &T, different: Option<T>) -> bool {
+    hash_of(a) != hash_of(&a.clone()) || eq_only_bad(a, different)
+}
+
+pub fn eq_only_bad<T: PartialEq + Clone>(a: &T, different: Option<T>) -> bool {
+    let c = a.clone();
+    *a != c || different.map(|d| *a == d || d == *a).unwrap_or(false)
+}
